@@ -579,3 +579,6 @@ def run(ctx):
     ctx.run_rule("R20.8", "every document is executed: no `continue` in the documents loop bypasses execute_all, except on emptiness of the accumulated prepend+own+append list [E-PATH must-pass]", r20_8, floor=1)
     from . import c14
     ctx.run_rule("R20.9", "executor / test command contract: ExecutionError::Timeout is constructed only in the arm of an output whose exit status is Timeout - the command counts one failure per such output, so exit 50 follows (shared with C14 R14.4) [E-PATH]", c14.r14_4, floor=4)
+    from . import c16
+    ctx.run_rule("R20.10", "prepend / append of front-matter and command line accumulate (own and inherited list, documented order): no list replaces the other (shared with C16 R16.1) [E-FLOW]",
+                 lambda c: c16._merge_fields(c, c.prog.fn("DocumentConfig::with_defaults_from"), "DocumentConfig", only={"append", "prepend"}), floor=2)
